@@ -6,6 +6,7 @@ dtml-return, so the statement covers every exit path.
 -/
 import DTML.Render
 import DTML.GenRender
+import DTML.Lemmas.Call
 set_option linter.unusedVariables false
 namespace DTML.Props.C08
 open DTML.Render
@@ -1147,5 +1148,13 @@ theorem gen_with_block_is_model (env : Env) (fuel : Nat) (src : Src) (mapping on
     | raise e => rfl
     | ret v => rfl
     | oom => rfl
+
+/-- **The template call whose stack / level restoration is proved above is `String.__call__` of the source** (regenerated on
+every run: the pushes counted in `pushed`, the recursion guard popping what it pushed, `finally: if pushed:
+md._pop(pushed); md.level = level`) -/
+theorem gen_template_call_is_model (env : Env) (fuel id : Nat) (t : Template) (st : St)
+    (ht : env.templates[id]? = some t) :
+    GenCall.callGen env fuel t [] .namespace [] st = callSub env (fuel + 1) id st :=
+  Lemmas.Call.call_on_caller_namespace env fuel id t st ht
 
 end DTML.Props.C08
